@@ -89,7 +89,8 @@ impl MemQueue {
         payload: &[u8],
     ) -> Result<(), AppendError> {
         let next_position = self.next_position();
-        if target_position < next_position {
+        // u64::MAX cannot be used as a position: the position following it is not representable.
+        if target_position < next_position || target_position == u64::MAX {
             return Err(AppendError::Past);
         }
 
@@ -169,15 +170,17 @@ impl MemQueue {
         if self.start_position > truncate_up_to_pos {
             return 0;
         }
-        if truncate_up_to_pos + 1 >= self.next_position() {
-            self.start_position = truncate_up_to_pos + 1;
+        // (saturating: truncating up to u64::MAX leaves a queue that accepts no further record)
+        let first_position_to_keep = truncate_up_to_pos.saturating_add(1);
+        if first_position_to_keep >= self.next_position() {
+            self.start_position = first_position_to_keep;
             self.concatenated_records.clear();
             let record_count = self.record_metas.len();
             self.record_metas.clear();
             return record_count;
         }
         let first_record_to_keep = self
-            .position_to_idx(truncate_up_to_pos + 1)
+            .position_to_idx(first_position_to_keep)
             .unwrap_or_else(std::convert::identity);
 
         let start_offset_to_keep: usize = self.record_metas[first_record_to_keep].start_offset;
@@ -187,7 +190,7 @@ impl MemQueue {
         }
         self.concatenated_records
             .truncate_head(..start_offset_to_keep);
-        self.start_position = truncate_up_to_pos + 1;
+        self.start_position = first_position_to_keep;
         first_record_to_keep
     }
 
